@@ -11,6 +11,10 @@ const KEYS: [&str; 2] = ["a", "bb"];
 const IDX: [usize; 2] = [0, 7];
 
 fn check(loc: ValuePointerRef, model: &[St]) {
+    // a panic inside to_owned means no owned pointer is produced at all: reported under this property (natively; Kani reports panics itself)
+    #[cfg(not(kani))]
+    let owned = match std::panic::catch_unwind(std::panic::AssertUnwindSafe(|| loc.to_owned())) { Ok(o) => o, Err(_) => { oblige!(false, "C19:to_owned_lists_exactly_the_pushed_steps_in_order"); return; } };
+    #[cfg(kani)]
     let owned = loc.to_owned();
     let rendered: Vec<String> = owned.path.iter().map(|c| format!("{:?}", c)).collect();
     let want: Vec<String> = model.iter().map(|s| match s { St::K(k) => format!("Key({:?})", k), St::I(i) => format!("Index({})", i) }).collect();
@@ -45,4 +49,18 @@ fn grow_long(loc: ValuePointerRef, model: &mut Vec<St>, phase: usize, left: usiz
 }
 pub fn value_long_paths() { let mut m = Vec::new(); grow_long(ValuePointerRef::Origin, &mut m, nd::below(4) as usize, 40); }
 
-pub fn registry() -> Vec<(&'static str, crate::Body)> { vec![("value_paths", value_paths as crate::Body), ("value_long_paths", value_long_paths)] }
+/// boundary VALUES of steps (the other harnesses vary the number and mix of steps): index 0 / 1 / usize::MAX / 2^60 / 4096, the empty
+/// key, equal neighbouring steps -- at the first, a middle and the last position of a path of up to 4 steps
+pub fn value_step_values() {
+    const KS: [&str; 3] = ["", "a", "a"];
+    const IS: [usize; 5] = [0, 1, usize::MAX, 1 << 60, 4096];
+    fn go(loc: ValuePointerRef, model: &mut Vec<St>, left: u8) {
+        check(loc, model);
+        if left == 0 || nd::bool() { return; }
+        let c = nd::below(8) as usize;
+        if c < 3 { model.push(St::K(KS[c])); go(loc.push_key(KS[c]), model, left - 1) } else { model.push(St::I(IS[c - 3])); go(loc.push_index(IS[c - 3]), model, left - 1) }
+    }
+    let mut m = Vec::new(); go(ValuePointerRef::Origin, &mut m, 4);
+}
+
+pub fn registry() -> Vec<(&'static str, crate::Body)> { vec![("value_paths", value_paths as crate::Body), ("value_long_paths", value_long_paths), ("value_step_values", value_step_values)] }
